@@ -62,7 +62,7 @@ WriteOps == {"insert", "insert_multiple", "remove", "drop_measurement", "remove_
 Forbidden(a) ==
   CASE Mode = "r" -> a.op \in WriteOps \/ (a.op = "bad" /\ a.entry \notin {"ctor", "setter"})
     [] Mode = "a" -> a.op \notin {"insert", "insert_multiple", "reopen", "repr"} /\      \* (repr() never touches storage)
-                     ~ (a.op = "bad" /\ a.entry \in {"ctor", "setter", "insert_meas", "insert_meas_stored"})
+                     ~ (a.op = "bad" /\ a.entry \in {"ctor", "setter", "insert_meas", "insert_meas_stored", "insert_meas_pos", "handle_insert", "handle_insert_multiple"})
     [] OTHER -> FALSE
 
 (* operations whose failure the specification decides; "bad" operations    *)
